@@ -1,6 +1,8 @@
 //! C07: no input can crash a decoder — truncations (+EOF) at every point, junk, bit flips, splits,
 //! cross-protocol handshakes, for every network-facing decoder
 use crate::c04::random_uuid;
+use crate::c02::timed;
+use crate::craft::Crafter;
 use crate::gen_ss::*;
 use crate::session::Session;
 use crate::util::*;
@@ -12,7 +14,7 @@ enum Target {
     SsClient { cipher: &'static str },
     VmServer,
     VmClient { cipher: &'static str, udp: bool },
-    TjServer,
+    TjServer { udp: bool },
     TjClient { udp: bool },
 }
 
@@ -60,7 +62,7 @@ impl Fixture {
                 s.run(&format!("vm.client {} uuid={} cipher={} cmd={} addr={}", o, self.uuid, cipher, if *udp { "udp" } else { "tcp" }, self.addr));
                 encode_all(s, &o, &[b"hello".to_vec()])?;
             }
-            Target::TjServer => {
+            Target::TjServer { .. } => {
                 s.run(&format!("tj.server {} password={}", o, self.pw));
             }
             Target::TjClient { udp } => {
@@ -88,9 +90,9 @@ impl Fixture {
                 s.run(&format!("vm.client {} uuid={} cipher={} cmd={} addr={}", c, self.uuid, rng.pick(&["aes-128-gcm", "chacha20-poly1305"]), if udp { "udp" } else { "tcp" }, self.addr));
                 encode_all(s, &c, &[payload, b"x".to_vec()])
             }
-            Target::TjServer => {
+            Target::TjServer { udp } => {
                 let c = s.fresh("c");
-                let udp = rng.chance(1, 2);
+                let udp = *udp;
                 s.run(&format!("tj.client {} password={} cmd={} addr={}", c, self.pw, if udp { "udp" } else { "tcp" }, self.addr));
                 if udp {
                     let mut w = vec![];
@@ -124,8 +126,97 @@ fn target_key(t: &Target) -> String {
         Target::SsClient { cipher } => format!("ss-client:{}", cipher),
         Target::VmServer => "vmess-server".into(),
         Target::VmClient { cipher, udp } => format!("vmess-client:{}{}", cipher, if *udp { ":udp" } else { "" }),
-        Target::TjServer => "trojan-server".into(),
+        Target::TjServer { udp } => format!("trojan-server{}", if *udp { ":udp" } else { "" }),
         Target::TjClient { udp } => format!("trojan-client{}", if *udp { ":udp" } else { "" }),
+    }
+}
+
+/// Shadowsocks datagram decoders (server and client side): junk, every truncation and bit flips of a valid
+/// datagram, and *authenticated* datagrams (sealed under the right key by the Spec-side crafter) whose
+/// plaintext is cut at every position or carries inconsistent lengths — none may panic
+fn udp_cases(s: &mut Session, cr: &mut Crafter, rng: &mut Rng, thorough: bool) {
+    for cipher in CIPHERS {
+        s.begin_case(&format!("ss-udp:{}", cipher));
+        let cfg = random_cfg(rng, cipher, false);
+        let (uc, us) = (s.fresh("uc"), s.fresh("us"));
+        s.run(&format!("ssu.client {} cipher={} password={}", uc, cipher, cfg.client_password));
+        s.run(&format!("ssu.server {} cipher={} password={} users=-", us, cipher, cfg.server_password));
+        let key = format!("ss-udp:{}", cipher);
+        let mut offer = |s: &mut Session, w: &[u8]| {
+            for (op, o) in [("ssu.sdec", &us), ("ssu.cdec", &uc)] {
+                let r = timed(s, &format!("{} {} {}", op, o, hex(w)));
+                if r.starts_with("panic") {
+                    s.oracle_fail(&format!("panic:{}:{}", key, op), "datagram decoder panicked on network input");
+                }
+            }
+        };
+        // junk and a valid datagram cut / flipped everywhere
+        for l in [0usize, 1, 2, 15, 16, 17, 31, 32, 33, 40, 41, 42, 43, 57, 58, 59, 60, 75, 76, 77, 200] {
+            let j = rng.bytes(l);
+            offer(s, &j);
+        }
+        let valid = unhex(&timed(s, &format!("ssu.cenc {} addr={} payload={}", uc, random_addr(rng), hex(&rng.bytes(9))))).unwrap_or_default();
+        for k in 0..valid.len() {
+            offer(s, &valid[..k]);
+        }
+        for _ in 0..if thorough { 200 } else { 30 } {
+            let mut m = valid.clone();
+            if m.is_empty() {
+                break;
+            }
+            let i = rng.below(m.len() as u64) as usize;
+            m[i] ^= 1 << rng.below(8);
+            offer(s, &m);
+        }
+        // authenticated but malformed plaintexts
+        let now = crate::stream::now_secs();
+        let n = key_len(cipher);
+        let addrs = ["4:01020304:53".to_owned(), "6:20010db8000000000000000000000001:53".to_owned(), format!("d:{}:53", hex(b"dns.example.org")), format!("d:{}:443", hex(&vec![b'a'; 255]))];
+        let mut bodies: Vec<Vec<u8>> = vec![];
+        for a in &addrs {
+            let enc = unhex(&s.run(&format!("addr.enc s5 {}", a))).unwrap_or_default();
+            let full = [enc.clone(), b"payload".to_vec()].concat();
+            let step = if thorough || full.len() < 40 { 1 } else { 37 };
+            for k in (0..=enc.len().min(full.len())).step_by(step).chain([1usize, 2, 3]) {
+                bodies.push(full[..k.min(full.len())].to_vec());
+            }
+        }
+        bodies.push(vec![3]);
+        bodies.push(vec![3, 0]);
+        bodies.push(vec![3, 255]);
+        bodies.push(vec![9, 1, 2, 3]);
+        let mut asked = 0;
+        for tail in bodies {
+            let variants: Vec<Vec<u8>> = if is2022(cipher) {
+                let mut v = vec![];
+                for (ty, extra) in [(0u8, vec![]), (1u8, 7u64.to_be_bytes().to_vec())] {
+                    for (padlen, pad) in [(0u16, 0usize), (5, 5), (900, 3), (65535, 0)] {
+                        v.push([vec![ty], now.to_be_bytes().to_vec(), extra.clone(), padlen.to_be_bytes().to_vec(), vec![0u8; pad], tail.clone()].concat());
+                    }
+                }
+                // the fixed part itself cut short
+                let whole = v[0].clone();
+                for k in [0usize, 1, 5, 9, 10] {
+                    v.push(whole[..k.min(whole.len())].to_vec());
+                }
+                v
+            } else {
+                vec![tail.clone()]
+            };
+            for body in variants {
+                let rnd = if is2022(cipher) { rng.bytes(24) } else { rng.bytes(n) };
+                let w = cr.ask(&format!("craft.ssu cipher={} password={} sid={} pid={} rnd={} body={}", cipher, cfg.server_password, rng.below(1 << 40), 1 + rng.below(1000), hex(&rnd), if body.is_empty() { "-".to_owned() } else { hex(&body) }));
+                asked += 1;
+                s.count("craft:ssu");
+                let Some(w) = unhex(&w) else {
+                    s.oracle_fail("craft", "the Spec-side crafter did not build a datagram");
+                    return;
+                };
+                offer(s, &w);
+            }
+        }
+        s.count(&format!("crafted:{}", if asked > 0 { "some" } else { "none" }));
+        s.mark_nontrivial();
     }
 }
 
@@ -144,7 +235,8 @@ pub fn generate(s: &mut Session, tier: &str, rng: &mut Rng) {
         targets.push(Target::VmClient { cipher, udp: false });
         targets.push(Target::VmClient { cipher, udp: true });
     }
-    targets.push(Target::TjServer);
+    targets.push(Target::TjServer { udp: false });
+    targets.push(Target::TjServer { udp: true });
     targets.push(Target::TjClient { udp: false });
     targets.push(Target::TjClient { udp: true });
     for t in targets {
@@ -174,7 +266,7 @@ pub fn generate(s: &mut Session, tier: &str, rng: &mut Rng) {
             }
             s.mark_nontrivial();
             s.begin_case(&format!("{}:split", key));
-            for k in (1..w.len()).step_by(if thorough { 1 } else { 5 }) {
+            for k in (1..w.len()).step_by(if thorough || w.len() < 400 { 1 } else { 3 }) {
                 run_input(s, &fx, &key, &[w[..k].to_vec(), w[k..].to_vec()], false);
             }
             s.mark_nontrivial();
@@ -189,7 +281,7 @@ pub fn generate(s: &mut Session, tier: &str, rng: &mut Rng) {
             s.mark_nontrivial();
             // (5) the same bytes offered to every other kind of decoder (cross-protocol)
             s.begin_case(&format!("{}:cross", key));
-            for other in [Target::SsServer { cipher: "aes-256-gcm", users: false }, Target::SsServer { cipher: "2022-blake3-aes-128-gcm", users: true }, Target::VmServer, Target::TjServer, Target::TjClient { udp: true }, Target::VmClient { cipher: "aes-128-gcm", udp: false }] {
+            for other in [Target::SsServer { cipher: "aes-256-gcm", users: false }, Target::SsServer { cipher: "2022-blake3-aes-128-gcm", users: true }, Target::VmServer, Target::TjServer { udp: false }, Target::TjClient { udp: true }, Target::VmClient { cipher: "aes-128-gcm", udp: false }] {
                 let fo = Fixture::new(rng, other.clone());
                 run_input(s, &fo, &format!("{}<-{}", target_key(&other), key), &[w.clone()], true);
             }
@@ -249,4 +341,11 @@ pub fn generate(s: &mut Session, tier: &str, rng: &mut Rng) {
         }
     }
     s.mark_nontrivial();
+    match Crafter::new() {
+        Some(mut cr) => udp_cases(s, &mut cr, rng, thorough),
+        None => {
+            s.begin_case("no-driver");
+            s.oracle_fail("craft", "the Lean driver could not be started for Spec-side building");
+        }
+    }
 }
